@@ -221,7 +221,7 @@ func genParrots(dir string) error {
 	sb.WriteString("/-! generated by harness/cmd/gen (c03.go) from the working tree — do not edit.\n")
 	sb.WriteString("One row per predefined ClientHelloID: UTLSIdToSpec(id) as data (canonical order for shuffled ids). -/\n")
 	sb.WriteString("namespace Gen.Parrots\nopen Ext.Ext Hello\n\n")
-	sb.WriteString("structure Row where\n  name : Nat\n  spec : Preset.Spec\n  shuffle : Bool\n  /-- canonical order recovered from two different shuffle seeds agrees -/\n  canon2 : Bool\n  echSuites : List (Nat × Nat)\n  echLens : List Nat\n  deriving DecidableEq, Repr\n\n")
+	sb.WriteString("structure Row where\n  name : Nat\n  spec : Preset.Spec\n  shuffle : Bool\n  /-- canonical order recovered from two different shuffle seeds agrees -/\n  canon2 : Bool\n  echSuites : List (Nat × Nat)\n  echLens : List Nat\n\n")
 	var names []string
 	for _, id := range genParrotIDs {
 		s1, seed1, err := c03SpecWith(id, 0x1111)
